@@ -9,7 +9,7 @@ INFO = {
                    "by loop contracts. Multi-operand XOR kernels: one loop-free run per (operand count, size). GF kernels: one "
                    "loop-free run per size, constant and contents symbolic.",
     "assumptions": [
-        "no alignment model in CBMC: 'every buffer alignment' is one case; unaligned 64/32-bit accesses behave as byte accesses (true on x86-64)",
+        "alignment is modelled through CBMC's pointer encoding (object number | offset): a buffer at offset a of a fresh object has address = a mod 8; symbolic for of_add_to_symbol, one constant pair per run for the other kernels; unaligned 64/32-bit accesses behave as byte accesses (true on x86-64)",
         "GF kernels: 16 bytes of leading slack inside the dst/src objects because the kernels form a pointer before the buffer for sz < 15 (flat address space assumed); a read before the buffer is not detected, a write is",
         "GF(2^8) kernels are specified relative to the multiplication table they index (of_gf_2_8_mul_table / of_gf_mul_table); C14 proves the tables equal the field product",
         "of_addmul1 (legacy codec): table contents arbitrary (cbmc --nondet-static)",
@@ -26,7 +26,7 @@ def jobs(tier, seed):
                   repo_sources=[SYM], loops="of_add_to_symbol.json", timeout=1500, mem_gb=8,
                   status="proved", bound="symbol_size <= 2^24 (harness constant); loops closed by loop contracts, no unwinding"))
     if tier == "quick":
-        sizes = list(range(0, 25)) + [31, 32, 33, 39, 40]
+        sizes = list(range(0, 18)) + [23, 24, 25, 31, 32, 33, 39, 40]
         counts = list(range(0, 10)) + [12, 15, 16, 17, 20]
         gsizes = list(range(0, 65))
         g8sizes = list(range(0, 19)) + [31, 32, 33, 47, 48, 49, 63, 64]
@@ -35,17 +35,23 @@ def jobs(tier, seed):
         counts = list(range(0, 21))
         gsizes = list(range(0, 161))
         g8sizes = list(range(0, 161))
+    x1sizes = list(range(0, 41)) if tier == "quick" else list(range(0, 161))
+    for s in x1sizes:
+        js.append(Job("xor1.size%d" % s, "xor_one_into_one_constant_size", "c13_add_to_symbol.c", ["of_add_to_symbol"], repo_sources=[SYM],
+                      defines={"OFV_SIZE": s}, unwind=s // 8 + 10, timeout=300, mem_gb=3, status="bounded",
+                      bound="one run per size %d..%d; both alignments (0..7), contents, ghost byte symbolic" % (x1sizes[0], x1sizes[-1])))
     for h, f, g in (("c13_add_from_multiple.c", "of_add_from_multiple_symbols", "xor_many_into_one"),
                     ("c13_add_to_multiple.c", "of_add_to_multiple_symbols", "xor_one_into_many")):
         for s in sizes:
             for c in counts:
                 js.append(Job("%s.size%d.count%d" % (g, s, c), g, h, [f], repo_sources=[SYM],
-                              defines={"OFV_SIZE": s, "OFV_COUNT": c}, unwind=max(s // 8, c, 4) + 2,
+                              defines={"OFV_SIZE": s, "OFV_COUNT": c, "OFV_TA": (s + 3 * c + seed) % 8, "OFV_FA": (5 * s + c + 1 + seed) % 8},
+                              unwind=max(s // 8, c, 4) + 2,
                               timeout=300, mem_gb=3, status="bounded",
-                              bound="one run per (count,size): sizes %d..%d (%d values), counts %d..%d (%d values); contents and ghost byte symbolic"
+                              bound="one run per (count,size): sizes %d..%d (%d values), counts %d..%d (%d values); contents and ghost byte symbolic; target/source alignment one constant pair per run (varies with size, count, VERIF_SEED)"
                                     % (sizes[0], sizes[-1], len(sizes), counts[0], counts[-1], len(counts))))
     for k in (1, 2, 3, 4):
-        ss = g8sizes if k == 2 else gsizes
+        ss = g8sizes if k in (2, 4) else gsizes
         for s in ss:
             extra = ["--nondet-static"] if k == 1 else []
             tu = {1: "src/lib_stable/reed-solomon_gf_2_8/of_reed-solomon_gf_2_8.c",
@@ -53,8 +59,9 @@ def jobs(tier, seed):
                   3: "src/lib_stable/reed-solomon_gf_2_m/galois_field_codes_utils/algebra_2_4.c",
                   4: "src/lib_stable/reed-solomon_gf_2_m/galois_field_codes_utils/algebra_2_4.c"}[k]
             js.append(Job("gf.%s.size%d" % (KNAME[k], s), "gf_addmul_" + KNAME[k], "c13_gf_addmul.c", [KNAME[k]],
-                          defines={"OFV_SIZE": s, "OFV_KERNEL": k}, unwind=max(20, s + 2),
+                          defines={"OFV_SIZE": s, "OFV_KERNEL": k, "OFV_TA": (3 * s + 1 + seed) % 8, "OFV_FA": (5 * s + 2 + seed) % 8},
+                          unwind=max(20, s + 2),
                           solver="z3" if k in (1, 2) else "cadical", extra_cbmc=extra, tu_included=[tu], timeout=600, mem_gb=4, status="bounded",
-                          bound="one run per size: %d..%d (%d values); field constant, all contents symbolic, every byte checked"
+                          bound="one run per size: %d..%d (%d values); field constant, all contents symbolic, every byte checked; dst/src alignment one constant pair per run"
                                 % (ss[0], ss[-1], len(ss))))
     return js
